@@ -199,6 +199,8 @@ class Sym:
         return mk(f(a, b))
 
     def __add__(self, o):
+        if self.is_bool and isinstance(o, Sym) and o.is_bool:
+            return mk(z3.Or(self.e, o.e))          # NumPy: bool + bool is the logical or
         return self._bin(o, lambda a, b: a + b)
 
     def __radd__(self, o):
